@@ -26,6 +26,7 @@ type GenOpts struct {
 	Hostile      bool // draw identifiers and file names from the hostile pool (Go keywords, initialisms, generated-method names, std package names)
 	BackEdges    bool // cyclic includes: later files include earlier ones and typedef their types (compile-only properties)
 	TypeAnnots   bool // annotations with arbitrary keys on typedefs, structs, unions, exceptions, enums and on base / container type expressions (string (validate.format = "hex"), set<string> (go.type = "slice", owner = "x")): the TYPE of a field then has annotations of its own (C15)
+	DefGoNames   bool // one enum, struct, union, exception or typedef in three carries (go.name = "..."): its Go type is not called what its Thrift name says, wherever it is mentioned (C19; safe pool only)
 	SameBaseRuns bool // one program in two with >= 3 files gives three or four of its files, neighbours included, one base name in different directories; services prefer parents in same-named files (C19)
 	// Avoid lists defect classes the generator must not produce (known,
 	// unrepaired defects excluded by construction; each exclusion is counted
@@ -461,6 +462,7 @@ func (g *gctx) genFile(f *File) {
 		for _, sh := range shapes {
 			if g.chance(2, 3, "tdshape") {
 				td := &Def{Kind: DTypedef, Name: g.newTypeName(), Target: sh}
+				g.defGoName(td)
 				add(td)
 				g.sigTypedefs = append(g.sigTypedefs, td)
 			}
@@ -657,6 +659,7 @@ func (g *gctx) genEnum() *Def {
 		d.Items = append(d.Items, it)
 	}
 	d.Annots = g.foreignAnnots(d.Annots, 4)
+	g.defGoName(d)
 	return d
 }
 
@@ -704,6 +707,7 @@ func (g *gctx) genType(depth int, allowStruct bool) *Type {
 func (g *gctx) genTypedef() *Def {
 	d := &Def{Kind: DTypedef, Name: g.newTypeName(), Target: g.genType(2, true)}
 	d.Annots = g.foreignAnnots(d.Annots, 3)
+	g.defGoName(d)
 	return d
 }
 
@@ -730,6 +734,32 @@ func (g *gctx) foreignAnnots(a map[string]string, den int) map[string]string {
 func (g *gctx) typeAnnots(t *Type, den int) *Type {
 	t.Annots = g.foreignAnnots(t.Annots, den)
 	return t
+}
+
+// defGoName gives, one time in three when DefGoNames is set, the definition a go.name
+// annotation. The new name cannot clash: Thrift names are unique per file, none of the pool
+// starts with "Go" / "Renamed" / "X" or ends in "Go" / "T", and enum items are <Enum><Item>.
+func (g *gctx) defGoName(d *Def) {
+	den := 3
+	if d.Kind == DEnum {
+		den = 2 // the plugin description of an enum is built by a branch of its own
+	}
+	if !g.o.DefGoNames || g.o.Hostile || !g.chance(1, den, "def_goname") {
+		return
+	}
+	if d.Annots == nil {
+		d.Annots = map[string]string{}
+	}
+	switch g.intn(0, 3, "def_goname_style") {
+	case 0:
+		d.Annots["go.name"] = "Go" + d.Name
+	case 1:
+		d.Annots["go.name"] = d.Name + "Go"
+	case 2:
+		d.Annots["go.name"] = "Renamed" + d.Name
+	default:
+		d.Annots["go.name"] = "X" + d.Name + "T"
+	}
 }
 
 // structOnlyStems are legal in structs and unions but reserved in exceptions (Error, ErrorName methods).
@@ -860,7 +890,26 @@ func (g *gctx) genStruct() *Def {
 		}
 	}
 	d.Annots = g.foreignAnnots(d.Annots, 4)
+	g.defGoName(d)
 	return d
+}
+
+// flagValues are the values go.redact / go.nolog are written with besides the bare form. Both
+// annotations work by PRESENCE (gen/field.go shouldRedact, gen/zap.go zapOptOut: `_, ok :=
+// spec.Annotations[...]`; the documentation only shows the bare form), so a field is redacted
+// / kept out of the logs whatever the value says: a data class ("pii"), an affirmative word, a
+// boolean literal, nothing. Values a boolean parser reads as false ("false", "0", "f", "no",
+// "off") are deliberately NOT generated: on the unchanged tree they redact as well, but a
+// reader may take them for "not annotated", and the property speaks of annotated fields.
+var flagValues = []string{"", "true", "1", "pii", "yes", "secret", "credentials", "on", "TRUE", "T", "gdpr", "email address"}
+
+// flagValue draws how a presence annotation is written: bare half of the time ("\x00", see
+// annots), otherwise with one of flagValues.
+func (g *gctx) flagValue(what string) string {
+	if g.chance(1, 2, what+"_bare") {
+		return "\x00"
+	}
+	return flagValues[g.intn(0, len(flagValues)-1, what+"_value")]
 }
 
 func (g *gctx) fieldAnnots(f *Field, usedGo map[string]bool) {
@@ -880,10 +929,10 @@ func (g *gctx) fieldAnnots(f *Field, usedGo map[string]bool) {
 		rr, nr = g.o.RedactRate, 2*g.o.RedactRate
 	}
 	if g.chance(1, rr, "redact") {
-		a["go.redact"] = "\x00"
+		a["go.redact"] = g.flagValue("redact")
 	}
 	if g.chance(1, nr, "nolog") {
-		a["go.nolog"] = "\x00"
+		a["go.nolog"] = g.flagValue("nolog")
 	}
 	if g.chance(1, 10, "gotag") {
 		a["go.tag"] = `foo:"bar"`
@@ -1215,6 +1264,33 @@ func (g *gctx) sigType() *Type {
 			return &Type{K: TRef, Ref: &Ref{File: td.File, Name: td.Name}}
 		}
 	}
+	if g.o.TypedefArgs && g.chance(1, 6, "sig_enum") {
+		// an enum named directly, or as the element / key / value of a container
+		var ens []*Def
+		for _, d := range g.pool {
+			if d.Kind == DEnum {
+				ens = append(ens, d)
+			}
+		}
+		if len(ens) > 0 {
+			d := ens[g.intn(0, len(ens)-1, "sig_enum_i")]
+			en := &Type{K: TRef, Ref: &Ref{File: d.File, Name: d.Name}}
+			switch g.intn(0, 6, "sig_enum_shape") {
+			case 0:
+				return &Type{K: TList, Elem: en}
+			case 1:
+				return &Type{K: TSet, Elem: en}
+			case 2:
+				return &Type{K: TMap, Key: en, Val: g.genType(1, true)}
+			case 3:
+				return &Type{K: TMap, Key: &Type{K: TString}, Val: en}
+			case 4:
+				return &Type{K: TList, Elem: &Type{K: TList, Elem: en}}
+			default:
+				return en
+			}
+		}
+	}
 	return g.genType(2, true)
 }
 
@@ -1263,6 +1339,12 @@ func (g *gctx) genService() *Def {
 				a.Req = "required"
 			case 1:
 				a.Req = "optional"
+			}
+			// a default value on the argument (every literal form struct fields get): the
+			// argument then is never a required one, whatever its declared requiredness
+			// (`2: i32 limit = 100`, `1: optional Color c = Color.RED`, `3: required string s = "x"`)
+			if g.o.Defaults && g.chance(1, 3, "arg_hasdefault") && (a.Req != "required" || g.chance(1, 3, "arg_reqdefault")) {
+				a.Default = g.genConst(a.Type, 2)
 			}
 			if g.o.Annotations && g.chance(1, 4, "argannot") {
 				g.fieldAnnots(a, usedNames)
